@@ -10,3 +10,6 @@ def run(tier, seed):
     out = cfgmachine.run_machine("C15", ["C15_Error", "C15_DictItemError"], [], tier, seed, focus="C15")
     # and on the generated schema family (every schema shape: paths through nested schemas, lists of configurations)
     return cfgmachine.merge(out, cfgfamily.run_family("C15", ["C15_Error", "C15_DictItemError"], [], tier, seed, focus="C15"))
+
+
+replay_file = cfgmachine.replay_file
